@@ -14,15 +14,15 @@ import (
 
 // deferInfo summarises what the payload sequence of an operation with @defer looked like.
 type deferInfo struct {
-	Incremental   int
-	FailedGroups  int
-	OutOfOrder    int
-	ErrorsSubset  bool // errors were a strict subset of the reference's
-	Merged        *parsers.J
-	Ref           *refexec.Result
-	OrderProblem  string
-	OrderSite     string
-	ContentOK     bool
+	Incremental    int
+	FailedGroups   int
+	OutOfOrder     int
+	ErrorsSubset   bool // errors were a strict subset of the reference's
+	Merged         *parsers.J
+	Ref            *refexec.Result
+	OrderProblem   string
+	OrderSite      string
+	ContentOK      bool
 	NestedDelivery bool
 }
 
